@@ -170,6 +170,12 @@ var extNonNil = map[string]bool{
 	"github.com/pkg/errors.New": true, "github.com/pkg/errors.Errorf": true, "github.com/pkg/errors.Wrap": false,
 }
 
+// extWrapsFirstArg: library functions documented to return nil iff their first argument is nil.
+var extWrapsFirstArg = map[string]bool{
+	"github.com/pkg/errors.Wrap": true, "github.com/pkg/errors.Wrapf": true,
+	"github.com/pkg/errors.WithStack": true, "github.com/pkg/errors.WithMessage": true, "github.com/pkg/errors.WithMessagef": true,
+}
+
 // valueNonNil: is v certainly non-nil at the point of use in block b?
 func (e *e1Engine) valueNonNil(v ssa.Value, b *ssa.BasicBlock, lits []Lit, depth int) bool {
 	if depth > 6 {
@@ -194,6 +200,10 @@ func (e *e1Engine) valueNonNil(v ssa.Value, b *ssa.BasicBlock, lits []Lit, depth
 		if f := x.Call.StaticCallee(); f != nil {
 			if extNonNil[f.String()] {
 				return true
+			}
+			// nil-preserving wrappers: non-nil exactly when their first argument is
+			if extWrapsFirstArg[f.String()] && len(x.Call.Args) > 0 {
+				return e.valueNonNil(x.Call.Args[0], b, lits, depth+1)
 			}
 			if f.Blocks != nil && f.Signature.Results().Len() == 1 && e.fnAlwaysNonNil(f, 0) {
 				return true
